@@ -8,7 +8,7 @@
                     EIdle  dequeue, table lookup (not found: dropped); data: pendingData.add -> EChk
                                                                         close notification:    -> EHalf
                     EHalf  halfClose(): CAS state opened->halfClosed; won: EHalfN = safeCloseNotify + OnRemoteClose
-                    EChk   load state; closed: EClrP pendingData.clear, EClrR recvBuf.recycle
+                    EChk   load state; closed: EClrP pendingData.clear, then — only without callbacks — EClrR recvBuf.recycle
                     EGetCb getCallbacks (nil: done)
                     ECas   CAS callbackInProcess 0->1; won: EWgAdd wg.Add(1), ESpawn gopool.Go
      goroutine    (stream.go 403-423)
@@ -210,7 +210,8 @@ Definition estep (s : est) : est :=
   | EHalf => if st s =? c_streamOpened then set_epc EHalfN (set_st c_streamHalfClosed s) else set_epc EIdle s
   | EHalfN => set_epc EIdle (set_nremote (nremote s + 1) (set_cnotify true s))
   | EChk => if st s =? c_streamClosed then set_epc EClrP s else set_epc EGetCb s
-  | EClrP => set_epc EClrR (clear_pending s)
+  | EClrP => (* with callbacks installed recvBuf is left to the callback goroutine / to close() *)
+             if cbset s then set_epc EIdle (clear_pending s) else set_epc EClrR (clear_pending s)
   | EClrR => set_epc EIdle (set_recv [] s)
   | EGetCb => if cbset s then set_epc ECas s else set_epc EIdle s
   | ECas => if inproc s =? 0 then set_epc EWgAdd (set_inproc 1 s) else set_epc EIdle s
